@@ -168,7 +168,10 @@ void check_c13(PositionScorer& live, const Board& B, const std::string& cls, lon
         Value a2 = s1.score(P), b2 = s2.score(Q);
         if (a2 == b2)
         {
-            rec.count("mismatch-vanished-on-fresh-scorers(C14 territory)");
+            // symmetric on fresh evaluators, asymmetric on the long-lived one the search would use: the cache is not
+            // transparent (C14 reports the mechanism); the asymmetry itself is still observable, so it is reported here too
+            rec.count("mismatch-vanished-on-fresh-scorers");
+            rec.violation("cache-dependent-asymmetry:" + material_sig(B), vh::J().str("fen", f1).str("mirror", f2).num("long_lived_score", a).num("long_lived_mirror_score", b).num("fresh_score", a2).num("fresh_mirror_score", b2).done());
             return;
         }
         a = a2;
